@@ -32,6 +32,7 @@ def build(ctx):
 FINDINGS = {
     # id -> (replay file in findings/, what it shows); the two findings recorded by the lead are exercised by the legs 'recycle-on' and 'dup'
     'C03-sched-distance-livelock': ('f3-llp-livelock.json', 'scheduler llp ignores the distance hint: the refused (AGAIN) flush task is re-selected forever'),
+    'C03-sched-distance-livelock/ip': ('f3-ip-livelock.json', 'scheduler ip ignores the distance hint and selects the lowest priority first: the refused (AGAIN, demoted) flush task is re-selected forever'),
 }
 
 def known_ids():
@@ -44,14 +45,19 @@ def run_findings(ctx, exe):
     for fid, (fn, what) in FINDINGS.items():
         path = os.path.join('/verif/out/replay', 'C03-' + fn)
         shutil.copyfile(os.path.join(HERE, 'findings', fn), path)
-        r = subprocess.run([exe, '--replay', path, '--outdir', '/verif/out', '--hang', '6'], capture_output=True, text=True, timeout=300)
+        r = subprocess.run([exe, '--replay', path, '--outdir', '/verif/out', '--hang', '2'], capture_output=True, text=True, timeout=300)
+        hang = 'no progress for' in r.stdout
+        if r.returncode == 1 and hang:      # a hang is believed only after a re-run alone with a 4x limit
+            r = subprocess.run([exe, '--replay', path, '--outdir', '/verif/out', '--hang', '8'], capture_output=True, text=True, timeout=600)
+            hang = 'no progress for' in r.stdout
         failed = (r.returncode == 1)
-        ctx.add_leg(name='finding-' + fid, leg='repro', states=1, transitions=0, executions=1, nontrivial=1 if failed else 0, distinct_outcomes=1, exhaustive=True,
+        fid_full, fid = fid, fid.split('/')[0]
+        ctx.add_leg(name='finding-' + fid_full.replace('/', '-'), leg='repro', states=1, transitions=0, executions=1, nontrivial=1 if failed else 0, distinct_outcomes=1, exhaustive=True,
                     samples=['%s: %s' % (fid, 'reproduced' if failed else 'NOT reproduced (fixed?)')])
         if r.returncode not in (0, 1):
             ctx.broken.append('finding repro %s: exit %d\n%s' % (fid, r.returncode, r.stderr[-1500:]))
         elif failed:
-            if fid in known:
+            if fid in known and hang:      # only the hang signature under llp / ip is the known finding; a wrong value is not
                 ctx.known_finding('%s reproduced: %s (replay %s)' % (fid, what, path))
             else:
                 ctx.violation(path, 'GENUINE DEFECT (not listed in known_findings.json): %s: %s' % (fid, what))
@@ -73,9 +79,9 @@ def check(ctx):
         leg('inproc-1t', ['--leg', 'inproc', '--threads', '1', '--nt', '1:3', '--maxp', '2', '--nest', '1', '--jobs', '8'], 60)
         leg('scheds-1t', ['--leg', 'scheds', '--threads', '1', '--exclude', 'll,llp,ip', '--nt', '1:3', '--maxp', '2', '--nest', '1', '--stride', '36'], 60)
         leg('gate-le2', ['--leg', 'gate', '--nt', '1:2', '--maxp', '2', '--win', '1,1;2,1;0,0', '--jobs', '8'], 60)
-        leg('gate-3x1', ['--leg', 'gate', '--nt', '3:3', '--maxp', '1', '--win', '0,0', '--stride', '9', '--jobs', '8'], 60)
+        leg('gate-3x1', ['--leg', 'gate', '--nt', '3:3', '--maxp', '1', '--win', '0,0', '--stride', '18', '--jobs', '8'], 60)
         # the real configuration (task objects recycled): every case in a forked child, failures attributed by differential re-run
-        leg('recycle-on', ['--leg', 'gate', '--nt', '1:2', '--maxp', '2', '--win', '1,1;0,0', '--stride', '3', '--jobs', '8', '--isolate', '1', '--norecycle', '0', '--dup', '0'], 80)
+        leg('recycle-on', ['--leg', 'gate', '--nt', '1:2', '--maxp', '2', '--win', '1,1;0,0', '--stride', '5', '--jobs', '8', '--isolate', '1', '--norecycle', '0', '--dup', '0'], 80)
         # tasks naming one tile twice (R,R / R,RW / RW,R)
         leg('dup', ['--leg', 'gate', '--nt', '1:1', '--maxp', '2', '--win', '0,0;1,1', '--jobs', '3', '--isolate', '1', '--norecycle', '1', '--dup', '2'], 60)
     else:
